@@ -908,7 +908,8 @@ open VlsModel VlsModel.Payments
 
 /-- the generated `Node::has_payment` is the reading `hasPay` used above, for every generated node whose invoice table
     carries the model's invoice ids (`invoice_hash`) -/
-theorem C06_fn_has_payment (n : Node) (g : Gen.FnNodeApprove.Node Hash) (h : Hash) (id : List Nat)
+theorem C06_fn_has_payment (n : Node)
+    (g : Gen.FnNodeApprove.Node (PaymentHash := Hash) (ScriptBuf := Unit) (Xpub := Unit) (PublicKey := Nat)) (h : Hash) (id : List Nat)
     (hinv : (Rs.omapGet g.state.invoices h).map (·.invoice_hash) = (n.invoices h).map (·.id)) :
     g.has_payment h id = hasPay n h id := by
   unfold Gen.FnNodeApprove.Node.has_payment hasPay
@@ -928,4 +929,320 @@ theorem C06_fn_has_payment (n : Node) (g : Gen.FnNodeApprove.Node Hash) (h : Has
       by_cases e : o.id = id
       · simp [hinv, e]
       · simp [hinv, e, Rs.fail]
+end VlsModel.Props.C06Fn
+
+/-! ### `NodeState::apply_payments` itself (round 9): translated from the source, tied to the model's `applyPayments`
+
+Normalisations (declared in `translate/fn_targets/C06.b06.json`, each must apply exactly once): the three write-through
+accesses `payments.entry(h).or_insert_with(..)` / `get_mut(h)` are read - change the copy - `insert` at the same key.
+Three loops over the same unordered hash set: (1) create missing entries and collect the issued invoices that became
+fulfilled, (2) mark those, (3) `RoutedPayment::apply` per hash.  `genApply_eq` computes the result for a node without
+issued invoices as two pure folds (`ens`, `stp3`); `C06_fn_apply_payments` reads the resulting table per hash. -/
+namespace VlsModel.Props.C06Fn
+open VlsModel VlsModel.Payments VlsModel.Payments.Fn VlsModel.Payments.FnS
+open VlsModel.Gen.FnNodePay
+
+/-- the generated `NodeState::apply_payments`, `enforce_balance = false` -/
+def genApply (s : NS) (c : Nat) (inS outS : List (Nat × Nat)) (bd : Nat × Nat) (ci : Option (CommitmentInfo2 Nat)) : Rs.M NS :=
+  NodeState.apply_payments (Validator := Unit) (fun _ => false) () s c inS outS bd () ci
+
+/-- `payments.entry(hash).or_insert_with(RoutedPayment::new)` -/
+def ens (m : List (Nat × RP)) (h : Nat) : List (Nat × RP) :=
+  match Rs.omapGet m h with
+  | some _ => m
+  | none => Rs.omapInsert m h RoutedPayment.new
+
+/-- the cltv bounds `apply_payments` takes from `commit_info` for one hash -/
+def cltvOf (ci : Option (CommitmentInfo2 Nat)) (h : Nat) : Option Nat × Option Nat :=
+  match ci with
+  | some info =>
+    let io := if info.is_counterparty_broadcaster then (info.offered_htlcs, info.received_htlcs)
+              else (info.received_htlcs, info.offered_htlcs)
+    (((io.1.filter (fun x => x.payment_hash == h)).map (fun x => x.cltv_expiry)).min?,
+     ((io.2.filter (fun x => x.payment_hash == h)).map (fun x => x.cltv_expiry)).max?)
+  | none => (none, none)
+
+def applyP (p : RP) (c i o : Nat) (ic oc : Option Nat) : RP :=
+  match p.apply c i o ic oc with
+  | .ok r => r
+  | .error _ => p
+
+def stp3 (c : Nat) (inS outS : List (Nat × Nat)) (ci : Option (CommitmentInfo2 Nat)) (m : List (Nat × RP)) (h : Nat) :
+    List (Nat × RP) :=
+  match Rs.omapGet m h with
+  | some p => Rs.omapInsert m h (applyP p c (getz inS h) (getz outS h) (cltvOf ci h).1 (cltvOf ci h).2)
+  | none => m
+
+def finalPay (m : List (Nat × RP)) (c : Nat) (inS outS : List (Nat × Nat)) (ci : Option (CommitmentInfo2 Nat)) :
+    List (Nat × RP) :=
+  List.foldl (stp3 c inS outS ci) (List.foldl ens m (hashSet inS outS)) (hashSet inS outS)
+
+theorem foldlM_ok {σ α : Type} (f : σ → α → Rs.M σ) (g : σ → α → σ) (P : σ → List α → Prop)
+    (hstep : ∀ s a l, P s (a :: l) → f s a = .ok (g s a) ∧ P (g s a) l) (l : List α) (s : σ) (h : P s l) :
+    List.foldlM f s l = .ok (l.foldl g s) := by
+  induction l generalizing s with
+  | nil => rfl
+  | cons a t ih =>
+    obtain ⟨h1, h2⟩ := hstep s a t h
+    simp only [List.foldlM_cons, h1, Rs.bind_ok, List.foldl_cons]
+    exact ih _ h2
+
+theorem omapGet_ens (m : List (Nat × RP)) (h k : Nat) :
+    Rs.omapGet (ens m h) k = if k = h then some ((Rs.omapGet m h).getD RoutedPayment.new) else Rs.omapGet m k := by
+  unfold ens
+  cases hm : Rs.omapGet m h with
+  | some p =>
+    by_cases e : k = h
+    · simp [e, hm]
+    · simp [e]
+  | none =>
+    simp only [omapGet_insert, Option.getD_none]
+
+theorem omapGet_foldl_ens (hs : List Nat) (m : List (Nat × RP)) (k : Nat) :
+    Rs.omapGet (List.foldl ens m hs) k
+      = if k ∈ hs then some ((Rs.omapGet m k).getD RoutedPayment.new) else Rs.omapGet m k := by
+  induction hs generalizing m with
+  | nil => simp
+  | cons h t ih =>
+    rw [List.foldl_cons, ih, omapGet_ens]
+    by_cases e : k = h
+    · subst e; simp
+    · by_cases e2 : k ∈ t <;> simp [e, e2]
+
+theorem omapGet_stp3 (c : Nat) (inS outS : List (Nat × Nat)) (ci : Option (CommitmentInfo2 Nat)) (m : List (Nat × RP))
+    (h k : Nat) :
+    Rs.omapGet (stp3 c inS outS ci m h) k
+      = if k = h then (Rs.omapGet m h).map (fun p => applyP p c (getz inS h) (getz outS h) (cltvOf ci h).1 (cltvOf ci h).2)
+        else Rs.omapGet m k := by
+  unfold stp3
+  cases hm : Rs.omapGet m h with
+  | some p => simp only [omapGet_insert, Option.map_some]
+  | none =>
+    by_cases e : k = h
+    · simp [e, hm]
+    · simp [e]
+
+theorem omapGet_foldl_stp3 (c : Nat) (inS outS : List (Nat × Nat)) (ci : Option (CommitmentInfo2 Nat)) (hs : List Nat)
+    (hn : hs.Nodup) (m : List (Nat × RP)) (k : Nat) :
+    Rs.omapGet (List.foldl (stp3 c inS outS ci) m hs) k
+      = if k ∈ hs then (Rs.omapGet m k).map (fun p => applyP p c (getz inS k) (getz outS k) (cltvOf ci k).1 (cltvOf ci k).2)
+        else Rs.omapGet m k := by
+  induction hs generalizing m with
+  | nil => simp
+  | cons h t ih =>
+    have hnt : t.Nodup := (List.nodup_cons.1 hn).2
+    have hh : h ∉ t := (List.nodup_cons.1 hn).1
+    rw [List.foldl_cons, ih hnt, omapGet_stp3]
+    by_cases e : k = h
+    · subst e; simp [hh]
+    · by_cases e2 : k ∈ t <;> simp [e, e2]
+
+theorem nodup_asetFold (ks acc : List Nat) (ha : acc.Nodup) :
+    (List.foldl (fun hs k => Rs.asetInsert hs k) acc ks).Nodup := by
+  induction ks generalizing acc with
+  | nil => exact ha
+  | cons k t ih =>
+    rw [List.foldl_cons]
+    apply ih
+    unfold Rs.asetInsert
+    by_cases hc : acc.contains k = true
+    · have hm : k ∈ acc := by simpa using hc
+      simp only [hc, if_true]; exact ha
+    · have : k ∉ acc := by simpa using hc
+      simp only [hc, Bool.false_eq_true, if_false]
+      exact List.nodup_append.2 ⟨ha, by simp, by intro a ha' b hb; simp at hb; subst hb; exact fun e => this (e ▸ ha')⟩
+
+theorem nodup_hashSet (inS outS : List (Nat × Nat)) : (hashSet inS outS).Nodup := by
+  unfold hashSet
+  exact nodup_asetFold _ _ (nodup_asetFold _ _ List.nodup_nil)
+
+def g1 (x : NS × List Nat) (h : Nat) : NS × List Nat := ({ x.1 with payments := ens x.1.payments h }, x.2)
+def g3 (c : Nat) (inS outS : List (Nat × Nat)) (ci : Option (CommitmentInfo2 Nat)) (s : NS) (h : Nat) : NS :=
+  { s with payments := stp3 c inS outS ci s.payments h }
+
+theorem foldl_g1 (hs : List Nat) (s : NS) (u : List Nat) :
+    List.foldl g1 (s, u) hs = ({ s with payments := List.foldl ens s.payments hs }, u) := by
+  induction hs generalizing s with
+  | nil => rfl
+  | cons h t ih => rw [List.foldl_cons, g1, ih]; rfl
+
+theorem foldl_g3 (c : Nat) (inS outS : List (Nat × Nat)) (ci : Option (CommitmentInfo2 Nat)) (hs : List Nat) (s : NS) :
+    List.foldl (g3 c inS outS ci) s hs = { s with payments := List.foldl (stp3 c inS outS ci) s.payments hs } := by
+  induction hs generalizing s with
+  | nil => rfl
+  | cons h t ih => rw [List.foldl_cons, g3, ih]; rfl
+
+theorem unwrap_some {α : Type} (x : α) : Rs.unwrap (some x) = .ok x := rfl
+
+theorem genApply_eq (s : NS) (c : Nat) (inS outS : List (Nat × Nat)) (bd : Nat × Nat) (ci : Option (CommitmentInfo2 Nat))
+    (hi : s.issued_invoices = []) :
+    genApply s c inS outS bd ci = .ok { s with payments := finalPay s.payments c inS outS ci } := by
+  unfold genApply NodeState.apply_payments
+  simp only [Bool.false_eq_true, if_false]
+  rw [foldlM_ok _ g1 (fun x _ => x.1.issued_invoices = []) ?_ _ _ hi]
+  · rw [foldl_g1]
+    simp only [Rs.bind_ok, List.foldlM_nil, Rs.pure_eq]
+    rw [foldlM_ok _ (g3 c inS outS ci) (fun s l => ∀ h ∈ l, (Rs.omapGet s.payments h).isSome = true) ?_ _ _ ?_]
+    · rw [foldl_g3]; rfl
+    · intro s0 a l hP
+      have ha := hP a (List.mem_cons_self)
+      cases hp : Rs.omapGet s0.payments a with
+      | none => rw [hp] at ha; simp at ha
+      | some p =>
+        obtain ⟨r', hr, _⟩ := C06_fn_apply 0 p c (getz inS a) (getz outS a) (cltvOf ci a).1 (cltvOf ci a).2
+        have hid : ∀ o : Option Nat, Option.map (fun a => a) o = o := fun o => by cases o <;> rfl
+        constructor
+        · simp only [hid, unwrap_some, Rs.bind_ok]
+          have hr' : p.apply c ((Rs.omapGet inS a).getD 0) ((Rs.omapGet outS a).getD 0) (cltvOf ci a).1 (cltvOf ci a).2
+              = Except.ok r' := hr
+          cases ci with
+          | none =>
+            simp only [cltvOf] at hr'
+            simp only [hr', Rs.bind_ok, Rs.pure_eq, g3, stp3, hp, applyP, getz, cltvOf]
+          | some info =>
+            simp only [cltvOf] at hr'
+            simp only [hr', Rs.bind_ok, Rs.pure_eq, g3, stp3, hp, applyP, getz, cltvOf]
+        · intro h hh
+          simp only [g3, omapGet_stp3]
+          by_cases e : h = a
+          · simp [e, hp]
+          · simp only [e, if_false]; exact hP h (List.mem_cons_of_mem _ hh)
+    · intro h hh
+      simp only [omapGet_foldl_ens, hh, if_true, Option.isSome_some]
+  · intro x a l hP
+    obtain ⟨s0, u0⟩ := x
+    simp only at hP
+    constructor
+    · cases hp : Rs.omapGet s0.payments a with
+      | some p =>
+        simp [hp, hP, Rs.omapGet, unwrap_some, g1, ens]
+        cases s0; simp_all
+      | none =>
+        simp [hp, hP, Rs.omapGet, unwrap_some, g1, ens, omapGet_insert]
+    · simp only [g1, hP]
+
+theorem applyP_spec (nch : Nat) (p : RP) (c i o : Nat) (ic oc : Option Nat) :
+    abs (applyP p c i o ic oc) = (abs p).apply c i o ic oc ∧ (WF nch p → c < nch → WF nch (applyP p c i o ic oc)) := by
+  obtain ⟨r', hr, ha, hw⟩ := C06_fn_apply nch p c i o ic oc
+  have e : applyP p c i o ic oc = r' := by simp [applyP, hr]
+  rw [e]; exact ⟨ha, hw⟩
+
+theorem omapGet_finalPay (m : List (Nat × RP)) (c : Nat) (inS outS : List (Nat × Nat)) (ci : Option (CommitmentInfo2 Nat))
+    (k : Nat) :
+    Rs.omapGet (finalPay m c inS outS ci) k
+      = if k ∈ hashSet inS outS then
+          some (applyP ((Rs.omapGet m k).getD RoutedPayment.new) c (getz inS k) (getz outS k) (cltvOf ci k).1 (cltvOf ci k).2)
+        else Rs.omapGet m k := by
+  unfold finalPay
+  rw [omapGet_foldl_stp3 c inS outS ci _ (nodup_hashSet inS outS), omapGet_foldl_ens]
+  by_cases e : k ∈ hashSet inS outS <;> simp [e]
+
+/-- **`NodeState::apply_payments` (generated from the source) against the model's `applyPayments`.**  Node without issued
+    invoices (the model does not carry their `is_fulfilled` flag), `enforce_balance = false`; the summaries are what the
+    generated summary functions return (`hin`, `hout`), `hcl`: the cltv bounds the code takes from `commit_info` are the
+    model's `minCltv` / `maxCltv` of the new commitment (`C06_fn_cltvOf`).  Whatever the iteration order of the hash set: the
+    call succeeds, leaves the invoices alone, and the payment table it returns stands for the model's table - every hash of
+    `keys` gets its channel entry replaced by `inVal` / `outVal` (a fresh entry if it had none) and its cltv bounds
+    merged; all other entries are untouched; well-formedness of the per-channel maps is preserved. -/
+theorem C06_fn_apply_payments (nch : Nat) (s : NS) (c : Chan) (hc : c < nch) (hEff cEff hCur cCur newInfo : Info)
+    (inS outS : List (Nat × Nat)) (bd : Nat × Nat) (ci : Option (CommitmentInfo2 Nat))
+    (hi : s.issued_invoices = [])
+    (hwf : ∀ h p, Rs.omapGet s.payments h = some p → WF nch p)
+    (hin : ∀ h, Rs.omapGet inS h = inSpec hEff.inc cEff.inc hCur.inc cCur.inc h)
+    (hout : ∀ h, Rs.omapGet outS h = outSpec hEff.out cEff.out hCur.out cCur.out h)
+    (hcl : ∀ h, cltvOf ci h = (minCltv newInfo.inc h, maxCltv newInfo.out h)) :
+    ∃ s', genApply s c inS outS bd ci = .ok s' ∧ s'.invoices = s.invoices ∧
+      (∀ h, (Rs.omapGet s'.payments h).map abs
+          = applyPayments (fun h => (Rs.omapGet s.payments h).map abs) c hEff cEff hCur cCur newInfo h) ∧
+      (∀ h p, Rs.omapGet s'.payments h = some p → WF nch p) := by
+  refine ⟨_, genApply_eq s c inS outS bd ci hi, rfl, ?_, ?_⟩
+  · intro h
+    have hm : h ∈ hashSet inS outS ↔ h ∈ keys hEff cEff hCur cCur := by
+      rw [mem_hashSet, hin, hout]
+      exact ((C06_fn_summaries_are_the_model hEff cEff hCur cCur h).2.2).symm
+    simp only [omapGet_finalPay, applyPayments]
+    by_cases e : h ∈ hashSet inS outS
+    · have e' := hm.1 e
+      simp only [e, e', if_true, Option.map_some, (applyP_spec nch _ c _ _ _ _).1, hcl,
+        getz_in hEff cEff hCur cCur inS hin h, getz_out hEff cEff hCur cCur outS hout h]
+      cases Rs.omapGet s.payments h with
+      | none => simp [(C06_fn_new nch).1]
+      | some p => simp
+    · have e' : ¬ h ∈ keys hEff cEff hCur cCur := fun x => e (hm.2 x)
+      simp only [e, e', if_false]
+  · intro h p hp
+    simp only [omapGet_finalPay] at hp
+    by_cases e : h ∈ hashSet inS outS
+    · simp only [e, if_true, Option.some.injEq] at hp
+      rw [← hp]
+      refine (applyP_spec nch _ c _ _ _ _).2 ?_ hc
+      cases hq : Rs.omapGet s.payments h with
+      | none => exact (C06_fn_new nch).2
+      | some q => exact hwf h q hq
+    · simp only [e, if_false] at hp
+      exact hwf h p hp
+
+/-- a model HTLC list as the generated `HTLCInfo2` records (the fields `apply_payments` reads) -/
+def gh (l : List Htlc) : List (HTLCInfo2 Nat) := l.map (fun x => { payment_hash := x.hash, cltv_expiry := x.cltv })
+
+theorem min_gh (l : List Htlc) (h : Nat) :
+    (((gh l).filter (fun x => x.payment_hash == h)).map (fun x => x.cltv_expiry)).min? = minCltv l h := by
+  induction l with
+  | nil => rfl
+  | cons x xs ih =>
+    unfold gh at ih ⊢
+    simp only [List.map_cons, List.filter_cons, minCltv]
+    by_cases e : x.hash = h
+    · simp only [e, beq_self_eq_true, if_true, List.map_cons, List.min?_cons, ih]
+      cases minCltv xs h <;> simp [optMerge]
+    · have : (x.hash == h) = false := by simpa using e
+      simp only [this, Bool.false_eq_true, if_false, e, ih]
+
+theorem max_gh (l : List Htlc) (h : Nat) :
+    (((gh l).filter (fun x => x.payment_hash == h)).map (fun x => x.cltv_expiry)).max? = maxCltv l h := by
+  induction l with
+  | nil => rfl
+  | cons x xs ih =>
+    unfold gh at ih ⊢
+    simp only [List.map_cons, List.filter_cons, maxCltv]
+    by_cases e : x.hash = h
+    · simp only [e, beq_self_eq_true, if_true, List.map_cons, List.max?_cons, ih]
+      cases maxCltv xs h <;> simp [optMerge]
+    · have : (x.hash == h) = false := by simpa using e
+      simp only [this, Bool.false_eq_true, if_false, e, ih]
+
+/-- the cltv bounds of `apply_payments` are the model's: for a counterparty commitment offered = incoming and received =
+    outgoing (`Info.ofCp`), for a holder commitment the reverse (`Info.ofHolder`) -/
+theorem C06_fn_cltvOf (cpb : Bool) (offered received : List Htlc) (h : Nat) :
+    cltvOf (some { is_counterparty_broadcaster := cpb, offered_htlcs := gh offered, received_htlcs := gh received }) h
+      = (minCltv (if cpb then Info.ofCp offered received else Info.ofHolder offered received).inc h,
+         maxCltv (if cpb then Info.ofCp offered received else Info.ofHolder offered received).out h) := by
+  cases cpb <;> simp [cltvOf, min_gh, max_gh, Info.ofCp, Info.ofHolder]
+
+/-- non-vacuity: an empty node, channel 0 of 2 signs a counterparty commitment with one received (= outgoing) HTLC of
+    1 500 sat for hash 7: the generated function creates the entry the model creates -/
+example :
+    (genApply { invoices := [], issued_invoices := [], payments := [], excess_amount := 0 } 0 [] [(7, 1500)] (0, 0)
+        (some { is_counterparty_broadcaster := true, offered_htlcs := [], received_htlcs := gh [⟨7, 1500, 500⟩] })).toOption.map
+      (fun s' => (Rs.omapGet s'.payments 7).map (fun p => (p.outgoing, p.outgoing_cltv_max)))
+      = some (some ([(0, 1500)], some 500)) := by decide
+end VlsModel.Props.C06Fn
+
+namespace VlsModel.Props.C06Fn
+open VlsModel VlsModel.Payments
+open VlsModel.Gen.FnNodeApprove (Allowable)
+
+/-- `Node::get_state` is the protected `state` (the lock is the identity) -/
+theorem C06_fn_get_state {H S X P : Type} (g : Gen.FnNodeApprove.Node H S X P) : g.get_state = g.state := rfl
+
+/-- `Node::allowlist_contains_payee` (the `allowlisted` input of the model's `proposalOp`): membership of
+    `Allowable::Payee(payee)` in the node's allowlist; entries of the two on-chain kinds never make a payee allowlisted -/
+theorem C06_fn_allowlist_contains_payee {H S X P : Type} [DecidableEq S] [DecidableEq X] [DecidableEq P]
+    (g : Gen.FnNodeApprove.Node H S X P) (payee : P) :
+    g.allowlist_contains_payee payee = g.state.allowlist.contains (Allowable.Payee payee) ∧
+    (g.allowlist_contains_payee payee = true ↔ ∃ a ∈ g.state.allowlist, a = Allowable.Payee payee) := by
+  constructor
+  · rfl
+  · unfold Gen.FnNodeApprove.Node.allowlist_contains_payee Gen.FnNodeApprove.Node.get_state
+    simp [List.contains_iff_mem]
 end VlsModel.Props.C06Fn
